@@ -161,7 +161,8 @@ def run(ctx):
         for p in oks:
             for e in p.events:
                 if e.target is not None and ("write", SNAP) in ix.event_effects(e)[0]:
-                    kinds.add(("write", CNT) in ix.event_effects(e)[0])
+                    # at this call site (a shared saver may take the slot - append / overwrite - as an argument)
+                    kinds.add(any(wr["item"] == CNT for wr in ix.writes_of_event(e)))
         if kinds == {True, False}:
             sw = f
     if sw is None:
@@ -180,7 +181,7 @@ def run(ctx):
                     other = [k for k in kids(ai) if k != h][0]
                     if tag(ix.inline(other)) == "field" and payload(ix.inline(other))[0] == "block_height":
                         same = o
-            appended = any(e.target is not None and ("write", CNT) in ix.event_effects(e)[0] for e in p.events)
+            appended = any(e.target is not None and any(wr["item"] == CNT for wr in ix.writes_of_event(e)) for e in p.events)
             val = None
             for wr in ix.writes_on_path(p):
                 if wr["item"] == SNAP and wr["value"] is not None:
